@@ -14,7 +14,8 @@ RULE = ('(1) operation histories over set_similarity/get_similarity/len/items: e
         'with the Lean model. (2) metadata dictionaries over an alphabet with space, #, non-ASCII, empty strings, ";", "=", LF, CR and '
         'other control/separator characters: to_csv must reject exactly the dictionaries the model rejects (table of forbidden '
         'characters extracted from the running code and passed to the model; TableOk evaluated by the model), otherwise from_csv(to_csv) '
-        'must return the same similarities (float.hex) and metadata for .csv and .csv.gz. Non-trivial: the history overwrites a pair, '
+        'must return the same similarities (float.hex) and metadata for .csv and .csv.gz; a caller-supplied `created` entry may sit anywhere '
+        'in the dict, values may begin / end with blanks, and the re-read container is extended and round-tripped a second time. Non-trivial: the history overwrites a pair, '
         'uses both key orders, a self pair or a rejected value / the metadata has >= 2 entries or a special character.')
 
 THEOREM = 'Hpv.Props.C15.*'
@@ -107,13 +108,15 @@ def forbidden_table():
     return forb
 
 
-def csv_round_trip(c, suffix):
+def csv_round_trip(c, suffix, want_container=False):
     """write with to_csv(path), read with from_csv(path); returns (items, meta) of the re-read container"""
     d = tempfile.mkdtemp(prefix='verif-c15-')
     path = os.path.join(d, 'sim' + suffix)
     try:
         c.to_csv(path)
         r = _cls().from_csv(path)
+        if want_container:
+            return r
         return sorted((a, b, float(v).hex()) for a, b, v in r.items()), dict(r.metadata)
     finally:
         for f in os.listdir(d):
@@ -160,6 +163,27 @@ def evaluate_meta(ctx, cases, forb, stream):
                 ctx.violation('round-trip-differs', {'case': {'kind': 'meta', 'meta': [list(x) for x in meta], 'ops': [list(o) for o in ops], 'suffix': suffix},
                                                      'impl': {'items': got_items[:5], 'meta': got_meta}, 'expected': {'items': want_items[:5], 'meta': want_meta},
                                                      'theorem': 'Hpv.Props.C15.meta_round_trip / rows_round_trip'})
+                continue
+            # second generation: the re-read container (whose metadata already holds `created`, so new entries come after it)
+            # gets the case's entries again under fresh keys and one more pair, is written and read once more
+            try:
+                r = csv_round_trip(c, suffix, want_container=True)
+                for k, v in meta:
+                    if k != 'created':
+                        r.metadata['g2' + k] = v
+                if ops:
+                    r.set_similarity('G2:1', 'G2:2', 0.25)
+                want2 = sorted((a, b, float(v).hex()) for a, b, v in r.items())
+                got2_items, got2_meta = csv_round_trip(r, suffix)
+                if got2_items != want2 or got2_meta != dict(r.metadata):
+                    ctx.violation('round-trip-differs:second-generation', {
+                        'case': {'kind': 'meta', 'meta': [list(x) for x in meta], 'ops': [list(o) for o in ops], 'suffix': suffix},
+                        'impl': {'items': got2_items[:5], 'meta': got2_meta}, 'expected': {'items': want2[:5], 'meta': dict(r.metadata)},
+                        'theorem': 'Hpv.Props.C15.meta_round_trip / rows_round_trip'})
+            except Exception as e:  # noqa
+                ctx.violation('round-trip-fails:second-generation', {
+                    'case': {'kind': 'meta', 'meta': [list(x) for x in meta], 'ops': [list(o) for o in ops], 'suffix': suffix},
+                    'impl': f'{type(e).__name__}: {e}', 'theorem': 'Hpv.Props.C15.meta_round_trip / rows_round_trip'})
 
 
 def run(ctx):
@@ -236,8 +260,14 @@ def run(ctx):
                 continue
             seen.add(k)
             meta.append((k, v))
+        if rng.random() < 0.35:       # a caller-supplied `created` entry anywhere in the dict (to_csv overwrites its value in place)
+            meta.insert(rng.randrange(0, len(meta) + 1), ('created', 'before'))
         ops = [('set', rng.choice(K), rng.choice(K), rng.choice([v for v in V if v >= 0])) for _ in range(rng.randrange(0, 8))]
         cases.append((meta, ops))
+    for tail in (' ', '\t', '  ', '\x0b', '\x0c', '\x1c', '\x85', '\u2028', '\xa0'):      # blanks at either end of the last / only value
+        cases.append(([('created', 'x'), ('k', 'v' + tail)], [('set', 'A:1', 'B:1', 1.0)]))
+        cases.append(([('k', tail + 'v'), ('created', 'x')], []))
+        cases.append(([('k', 'v' + tail)], []))
     for ch in (';', '=', '\n', '\r'):      # each reserved character in key and in value position
         cases.append(([('k' + ch, 'v')], [('set', 'A:1', 'B:1', 1.0)]))
         cases.append(([('k', 'v' + ch + 'w')], [('set', 'A:1', 'B:1', 1.0)]))
